@@ -581,6 +581,10 @@ def run_property(pid: str, tier: str, only_sub: Optional[str] = None) -> int:
 
     for l in lines:
         print(l)
+    if os.environ.get("VERIF_SHOW_MAXIMA"):
+        # calibration aid: the largest honest error ratios of the run (also part of the evidence file)
+        for k_, v_ in sorted(maxima.items()):
+            print(f"   max {k_} = {v_:.3e}")
     print(
         f"{pid} tier={tier} seed={seed}: {evaluations} cases, {len(nt_keys)} distinct non-trivial, "
         f"{inconclusive} inconclusive, {sum(known_hits.values())} in known classes, {wall:.1f}s"
